@@ -126,6 +126,7 @@ func prelude(kind string, wrap func(http.Handler) http.Handler) {
 }
 
 func run(script []Action, w http.ResponseWriter) {
+	scratch := make([]byte, 64)
 	for _, a := range script {
 		switch a.Op {
 		case "header":
@@ -133,7 +134,15 @@ func run(script []Action, w http.ResponseWriter) {
 		case "status":
 			w.WriteHeader(a.Code)
 		case "write":
-			_, _ = w.Write([]byte(a.Chunk))
+			// the handler owns the slice it writes from and reuses it: a writer must not retain it
+			if len(a.Chunk) > len(scratch) {
+				scratch = make([]byte, 2*len(a.Chunk))
+			}
+			n := copy(scratch, a.Chunk)
+			_, _ = w.Write(scratch[:n])
+			for i := range scratch {
+				scratch[i] = '#'
+			}
 		case "flush":
 			if f, ok := w.(http.Flusher); ok {
 				f.Flush()
